@@ -168,7 +168,10 @@ impl<'a> StateMachine<'a> {
             if matches!(self.state, State::MergeConflict(_, _))
                 && (self.line.starts_with("diff ")
                     || self.line.starts_with("@@")
-                    || self.config.commit_regex.is_match(&self.line))
+                    || self.config.commit_regex.is_match(&self.line)
+                    // (every line of a region begins with the marker columns of its hunk:
+                    // 'Submodule ...', say, is not one)
+                    || !(self.line.is_empty() || self.line.starts_with(['+', '-', ' ', '\\'])))
             {
                 self.flush_unterminated_merge_conflict()?;
             }
